@@ -426,6 +426,8 @@ class Sweep(object):
         def viol(what_key, text, site=None):
             if site is not None:          # crash-type exceptions are identified by the raising function
                 ck.violation('%s@%s' % (what_key, site), text, case)
+            elif what_key == 'not-survived':
+                ck.violation('%s:%s:%s' % (what_key, cid, scn.method), text, case)
             else:
                 ck.violation('%s:%s:%s:%s' % (what_key, cid, scn.method, kname), text, case)
         # (1) never a raw CommunicationError or an unrelated exception
@@ -485,6 +487,11 @@ class Sweep(object):
             self.members.add((cid, scn.method, o[1], kind in 'TXP'))
         for c in r['calls']:
             self.model_call(scn, c, case)
+        if scn.ttype == 'tt4' and scn.method == 'is_present':
+            other = {'B': 'O', 'C': 'O', 'b': 'o', 'c': 'o', 's': 'T'}
+            line = 'present4 ' + ''.join(other.get(t[1], t[1]) for t in r['trace']) + 'A'
+            exp = '%s %d' % ('true' if o == ('val', True) else 'false' if o == ('val', False) else str(o), len(r['trace']))
+            self.model_q.setdefault((line, exp), case)
 
     # -------------------------------------------------------------- correspondence with the Retry model
     def model_call(self, scn, c, case):
